@@ -438,4 +438,63 @@ pub(crate) mod verif_kani {
             && typenum::U97::USIZE == 97 && typenum::U128::USIZE == 128 && typenum::U133::USIZE == 133);
     }
 
+
+    // ------------------------------------------------------------------ counterexample twins (bounded; never counted as proof)
+    /// twin of the Verus contract of the allocating open (real body, model AEAD, |ciphertext| <= 20): short input -> OpenError,
+    /// tag = last 16 bytes, message = the rest, same state step as the in-place form, exhaustion checked first
+    #[cfg(any(feature = "alloc", feature = "std"))]
+    #[kani::proof]
+    #[kani::stub(zeroize::optimization_barrier, noop_barrier)]
+    #[kani::unwind(34)]
+    fn open_alloc_model_bounded() {
+        let mut ctx: AeadCtxR<ModelAead, HkdfSha256, K> = any_ctx::<ModelAead>(ModelImpl).into();
+        let seq0 = ctx.0.seq.0;
+        let ov0 = ctx.0.overflowed;
+        model_reset(false);
+        let len: usize = kani::any();
+        kani::assume(len <= 20);
+        let buf: [u8; 20] = kani::any();
+        let r = ctx.open(&buf[..len], b"aad");
+        kani::cover!(len == 16 && r.is_ok());
+        kani::cover!(len == 15);
+        if ov0 {
+            assert!(r.err() == Some(HpkeError::MessageLimitReached) && ctx.0.seq.0 == seq0 && ctx.0.overflowed && model_calls() == 0);
+        } else if len < 16 {
+            assert!(r.err() == Some(HpkeError::OpenError) && ctx.0.seq.0 == seq0 && !ctx.0.overflowed && model_calls() == 0);
+        } else {
+            let mut tag_ok = true;
+            let mut i = 0;
+            while i < 16 { if buf[len - 16 + i] != 0xA5 { tag_ok = false; } i += 1; }
+            if tag_ok {
+                let v = r.unwrap();
+                assert!(v.len() == len - 16);
+                let mut i = 0;
+                while i < len - 16 { assert!(v[i] == buf[i].wrapping_sub(1)); i += 1; }
+                if seq0 == u64::MAX { assert!(ctx.0.overflowed); } else { assert!(ctx.0.seq.0 == seq0 + 1 && !ctx.0.overflowed); }
+            } else {
+                assert!(r.err() == Some(HpkeError::OpenError) && ctx.0.seq.0 == seq0 && !ctx.0.overflowed);
+            }
+        }
+        core::mem::forget(ctx);
+    }
+
+    /// twin of the Deserializable contract for AeadTag (all lengths 0..=34): exactly 16 bytes are accepted and kept
+    #[kani::proof]
+    #[kani::stub(zeroize::optimization_barrier, noop_barrier)]
+    #[kani::unwind(36)]
+    fn aead_tag_from_bytes_full() {
+        let len: usize = kani::any();
+        kani::assume(len <= 34);
+        let buf: [u8; 34] = kani::any();
+        let r = AeadTag::<AesGcm128>::from_bytes(&buf[..len]);
+        kani::cover!(len == 16);
+        kani::cover!(len == 17);
+        if len != 16 {
+            assert!(matches!(r, Err(HpkeError::IncorrectInputLength(16, l)) if l == len));
+        } else {
+            let t = r.unwrap();
+            let mut i = 0;
+            while i < 16 { assert!(t.0[i] == buf[i]); i += 1; }
+        }
+    }
 }
